@@ -12,7 +12,7 @@ struct Case {
         uint64_t seed = 1, nblocks = 1;
         int inplace = 0, pl_in = 0, pl_out = 0, pl_key = 0;
         uint32_t sh_in = 0, sh_out = 0;
-        int giant = 0; // 1: CBC decrypt of more than 2^32 bytes (periodic read-only input, aliasing sink as output)
+        int giant = 0; // 1: CBC call of 2^32 bytes or more (periodic read-only input, aliasing sink as output)
 };
 static J to_json(const Case &c)
 {
@@ -81,19 +81,23 @@ static bool run(const Case &c, pbt::Ctx &ctx)
         if (c.giant) {
                 // decryption is local (P_j = D(C_j) ^ C_{j-1}): the last MiB of a > 4 GiB call is checked against the reference,
                 // which needs only the last MiB (+ one block) of the input
-                if (e->op != OP_DEC || c.nblocks < (1ull << 20)) { ctx.label("shrink artefact"); return true; }
+                if (e->op == OP_KEYEXP || c.nblocks < (1ull << 20)) { ctx.label("shrink artefact"); return true; }
+                const bool enc = e->op == OP_ENC;
+                const std::vector<uint8_t> &gs = enc ? es : ds;
                 uint64_t len = 16 * c.nblocks;
                 if (len + 4096 > periodic::SPAN) return true;
                 std::vector<uint8_t> iv = pbt::expandv(c.seed + 1, 16);
-                uint8_t *keys = A.alloc("keys", ds.size(), 16, guard::END);
-                memcpy(keys, ds.data(), ds.size());
+                uint8_t *keys = A.alloc("keys", gs.size(), 16, guard::END);
+                memcpy(keys, gs.data(), gs.size());
                 A.set_readonly(keys);
                 uint8_t *ivb = A.alloc("iv", 16, 16, guard::END);
                 memcpy(ivb, iv.data(), 16);
                 A.set_readonly(ivb);
                 uint8_t *in = periodic::stream(), *out = periodic::sink();
+                memset(out, 0xEE, periodic::PERIOD); // (one write reaches every alias)
                 bool ok = guard::guarded_call(fi, [&] {
                         if (e->api) rc = ((cbc_ifn) e->fn)(in, ivb, keys, out, len);
+                        else if (enc) ((cbc_enc_fn) e->fn)(in, ivb, keys, out, len);
                         else ((cbc_dec_fn) e->fn)(in, ivb, keys, out, len);
                 });
                 if (!ok) {
@@ -104,17 +108,28 @@ static bool run(const Case &c, pbt::Ctx &ctx)
                 uint64_t first = len - periodic::PERIOD;
                 for (uint64_t o = first; o < len; o += 16) {
                         uint8_t d[16];
-                        ra.decrypt(in + o, d);
-                        const uint8_t *prev = in + o - 16;
-                        for (int k = 0; k < 16; k++) d[k] ^= prev[k];
-                        if (memcmp(d, out + o, 16)) {
+                        bool bad;
+                        if (enc) {
+                                // encryption chains through the whole message; what the retained last MiB of ciphertext can be held to is the
+                                // chaining relation itself: D(C_j) ^ C_{j-1} = P_j for every block j of it (C_{j-1} of the first one is lost)
+                                if (o == first) continue;
+                                ra.decrypt(out + o, d);
+                                for (int k = 0; k < 16; k++) d[k] ^= out[o - 16 + k];
+                                bad = memcmp(d, in + o, 16) != 0;
+                        } else {
+                                ra.decrypt(in + o, d);
+                                const uint8_t *prev = in + o - 16;
+                                for (int k = 0; k < 16; k++) d[k] ^= prev[k];
+                                bad = memcmp(d, out + o, 16) != 0;
+                        }
+                        if (bad) {
                                 if (failx("output-giant", "output differs from SP 800-38A reference in block " + std::to_string(o / 16) + " of " + std::to_string(c.nblocks) +
                                                                   " (a call of more than 2^32 bytes)"))
                                         return false;
                                 break;
                         }
                 }
-                ctx.label("giant decrypt (> 2^32 bytes)");
+                ctx.label(enc ? "giant encrypt (>= 2^32 bytes; chaining relation over the last MiB)" : "giant decrypt (> 2^32 bytes)");
                 ctx.nontrivial = true;
                 return true;
         }
@@ -181,13 +196,14 @@ int main(int argc, char **argv)
                 if (case_no < ctx.optnum("giants", 0)) {
                         std::vector<size_t> dec;
                         for (size_t i = 0; i < g_ents.size(); i++)
-                                if (g_ents[i].runnable && g_ents[i].op == OP_DEC) dec.push_back(i);
+                                if (g_ents[i].runnable && g_ents[i].op != OP_KEYEXP) dec.push_back(i);
                         if (!dec.empty()) {
                                 c.ent = g_ents[dec[(size_t) (ctx.optnum("worker", 0) + case_no * ctx.optnum("workers", 1)) % dec.size()]].label();
+                                const bool exact = case_no < 2; // the first two rounds reach every entry once: exactly 2^32 bytes there
                                 case_no++;
                                 c.giant = 1;
                                 c.seed = rng64(1, UINT64_MAX - 8);
-                                c.nblocks = (1ull << 28) + (coin(1, 3) ? pick<uint64_t>({ 1, 7, 8, 15, 16, 17 }) : rng<uint64_t>(1, 70000));
+                                c.nblocks = (1ull << 28) + (exact ? 0 : coin(1, 2) ? pick<uint64_t>({ 1, 7, 8, 15, 16, 17 }) : rng<uint64_t>(1, 70000));
                                 return c;
                         }
                 }
